@@ -681,14 +681,15 @@ func (wd *world) checkSurfaced(o operation, opn string, res opResult, fired, cal
 		return
 	}
 	if status.Code(res.err) == codes.NotFound && (o.kind == opGet || o.kind == opGetFromComposite) {
-		// Both replicas answered this very read with a genuine NOT_FOUND before
-		// anything failed: the answer is theirs. (The local and queued
+		// Both replicas answered this very read with NOT_FOUND (genuinely, or as
+		// an inconsistent replica: NOT_FOUND failures are outside this clause)
+		// before anything else failed: the answer is theirs. (The local and queued
 		// replicators then still "replicate" the absent object; errorBuffer's
 		// WithTask runs that task and drops its result, so a failure of those
 		// pointless calls changes nothing.)
 		genuine := map[string]bool{}
 		for _, cr := range calls {
-			if (cr.op == "Get" || cr.op == "GetFromComposite") && cr.fired == nil && cr.result == "notfound" {
+			if (cr.op == "Get" || cr.op == "GetFromComposite") && (cr.fired == nil && cr.result == "notfound" || cr.fired != nil && cr.fired.kind == faultNotFound) {
 				genuine[cr.replica] = true
 			}
 		}
